@@ -6,6 +6,7 @@ CONSTANTS
   MaxMods = 0
   WorkUnits = {}
   MaxCounter = 0
+  AllocWhileCounter = TRUE
   Strict = TRUE
 INVARIANTS PermanentFlagged NoStaleIntern InternOK CursorOK MarkedSinceOK ReclaimedOK ModulePartsPermanent
 POSTCONDITION AllConsumed
